@@ -434,3 +434,88 @@ def r174(ctx, rep):
                 rep.finding("R17.4", g, norm(node)[:100], node.lineno, "the lower limit of the normalised constraint is not derived from the user's lb and the upper one from ub: limits swapped or mixed")
     if n < 2:
         raise AnalysisError("_get_constraints: construction of the normalised LinearConstraint/NonlinearConstraint with (lb, ub) not found")
+
+
+# ---------------------------------------------------------------------------
+def r176(ctx, rep):
+    """The values collected per constraint object are assembled under a gate
+    (`if self._m_eq: c_eq = np.concatenate(c_eq)`); a gate that is a counter
+    written in the per-constraint loop must *accumulate* over all constraint
+    objects - a plain assignment makes it describe the last object only and
+    the values of all the others are dropped."""
+    f = ctx.func(NLC_CALL)
+    gates = []
+    for node in ast.walk(f.node):
+        if not isinstance(node, ast.If):
+            continue
+        for s in node.body:
+            if isinstance(s, ast.Assign) and len(s.targets) == 1 and isinstance(s.targets[0], ast.Name) and _short(s.value) in ("concatenate", "hstack") and s.value.args and norm(s.value.args[0]) == s.targets[0].id:
+                gates.append((node, s.targets[0].id))
+    class _G:   # conditional-expression form of the same gate
+        def __init__(self, test, lineno):
+            self.test, self.lineno = test, lineno
+    for node in ast.walk(f.node):
+        if isinstance(node, ast.Assign) and len(node.targets) == 1 and isinstance(node.targets[0], ast.Name) and isinstance(node.value, ast.IfExp):
+            v = node.value
+            for br, neg in ((v.body, False), (v.orelse, True)):
+                if _short(br) in ("concatenate", "hstack") and br.args and norm(br.args[0]) == node.targets[0].id:
+                    gates.append((_G(v.test, node.lineno), node.targets[0].id))
+    if len(gates) < 2:
+        # the assembly may be unconditional - then nothing gates it
+        uncond = [s for s in ast.walk(f.node) if isinstance(s, ast.Assign) and _short(s.value) in ("concatenate", "hstack")]
+        if len(uncond) >= 2:
+            rep.ok("R17.6", f"{f.local}: the collected values are assembled unconditionally")
+            return
+        raise AnalysisError("NonlinearConstraints.__call__: assembly of the collected constraint values not found")
+    for gate, lst in gates:
+        refs = [x for x in ast.walk(gate.test) if isinstance(x, (ast.Attribute, ast.Name)) and isinstance(getattr(x, "ctx", None), ast.Load)]
+        counters = []
+        for x in refs:
+            t = norm(x)
+            if isinstance(x, ast.Name) and x.id in ("len", "np", "self", lst):
+                continue
+            if isinstance(x, ast.Attribute) and not (isinstance(x.value, ast.Name) and x.value.id == "self"):
+                continue
+            counters.append(t)
+        desc = f"{f.local}:{gate.lineno} `{lst}` assembled under `{norm(gate.test)}`"
+        if not counters:
+            if mentions(gate.test, lst):
+                rep.ok("R17.6", desc + " (gate derived from the list itself)")
+                continue
+            raise AnalysisError(f"{f.local}:{gate.lineno} gate `{norm(gate.test)}` of the assembly has an unknown shape")
+        for c in counters:
+            stores = []
+            for node in ast.walk(f.node):
+                if getattr(node, "lineno", 10**9) >= gate.lineno:
+                    continue
+                if isinstance(node, ast.Assign) and any(norm(t) == c for t in node.targets):
+                    stores.append((node, "="))
+                elif isinstance(node, ast.AugAssign) and norm(node.target) == c:
+                    stores.append((node, "aug"))
+            in_loop = []
+            for node, kind in stores:
+                cur = getattr(node, "_parent", None)
+                while cur is not None and cur is not f.node:
+                    if isinstance(cur, (ast.For, ast.While)):
+                        in_loop.append((node, kind))
+                        break
+                    cur = getattr(cur, "_parent", None)
+            if not in_loop:
+                raise AnalysisError(f"{f.local}: the gate counter `{c}` is not written in the per-constraint loop (unknown bookkeeping)")
+            bad = [n for n, k in in_loop if k == "=" or not isinstance(n.op, ast.Add)]
+            if bad:
+                rep.bad("R17.6", desc)
+                rep.finding("R17.6", f, norm(bad[0])[:100], bad[0].lineno,
+                            f"the counter `{c}` that gates the assembly of `{lst}` is assigned, not accumulated, in the loop over the constraint objects: it only describes the last object, "
+                            "so the components of all other objects are silently dropped (and the loss is made permanent by the size stored afterwards)")
+            else:
+                rep.ok("R17.6", desc + f": `{c}` accumulates over all constraint objects")
+
+
+_old_run17 = run
+
+
+def run(ctx, rep):  # noqa: F811
+    _old_run17(ctx, rep)
+    rep.rule("R17.6", "the counters that gate the assembly of the collected nonlinear constraint values accumulate over all constraint objects")
+    r176(ctx, rep)
